@@ -66,6 +66,7 @@ pub fn generate(seed: u64) -> CheckSpec {
             yield_permille: *sw.pick(&[0, 200, 600]),
             max_yields: *sw.pick(&[1, 3]),
             change_points: *sw.pick(&[0, 2, 4]),
+            event_interval: *sw.pick(&[61, 1, 7, 1000, 1000]),
         },
     }
 }
@@ -167,7 +168,7 @@ fn run_case(spec: &CheckSpec, verbose: bool) -> CaseReport {
     // ---- run_check on the owned runtime
     let shared: SharedRef = Rc::new(RefCell::new(Shared::new(spec.sched.clone(), spec.seed, None)));
     tokio::verif_seam::install(Box::new(SimController(shared.clone())));
-    let rt = tokio::runtime::Builder::new_current_thread().enable_time().start_paused(true).build().expect("rt");
+    let rt = tokio::runtime::Builder::new_current_thread().enable_time().start_paused(true).event_interval(spec.sched.event_interval.max(1)).build().expect("rt");
     // text output goes to fd 1: park it on /dev/null for the duration of the call
     let saved = if spec.format == "text" { Some(redirect_stdout()) } else { None };
     // run_check's future is not Send (it owns a Box<dyn OutputWriter>): it is the root future of
